@@ -274,6 +274,76 @@ def _check_program(space, mspecs, vnames, acc, only=None):
     return found
 
 
+# ----------------------------------------------------------------------------------------
+# documented wildcards: a parametrised @dependent_check type may take typing.Any for some parameters; a type with
+# wildcards is more general than one with values there (docs/dependent.md); patterns with incomparable wildcard sets
+# are unordered, so a value matching both is ambiguous
+
+
+def wildcard_cases(tier):
+    import typing
+
+    A = typing.Any
+    slots = [(2, A), (3, A), (4, A)]
+    patterns = [p for p in itertools.product(*slots)]
+    sizes = (2,) if tier == "quick" else (2, 3)
+    for L in sizes:
+        for combo in itertools.combinations(range(len(patterns)), L):
+            yield [patterns[i] for i in combo]
+
+
+def run_wildcards(pats, acc):
+    import typing
+
+    from ovld import Ovld, dependent_check
+
+    A = typing.Any
+
+    @dependent_check
+    def Shape(value: tuple, *shape):
+        return len(value) == len(shape) and all(s2 is A or s1 == s2 for s1, s2 in zip(value, shape))
+
+    log = []
+    ov = Ovld()
+
+    def mk(i, ann):
+        def m(x):
+            log.append(i)
+        m.__annotations__ = {"x": ann}
+        m.__name__ = m.__qualname__ = f"m{i}"
+        return m
+
+    found = []
+    names = [[("Any" if e is A else e) for e in p] for p in pats]
+    try:
+        for i, p in enumerate(pats):
+            ov.register(mk(i, Shape[p]))
+        ov.register(mk(99, object), priority=-1)
+    except Exception as e:  # noqa
+        found.append(("wildcards:build-refused", {"exc": core.short_exc(e)[:120]}))
+    wild = [frozenset(i for i, e in enumerate(p) if e is A) for p in pats]
+    for v in itertools.product((2, 9), (3, 9), (4, 9)) if not found else ():
+        app = [i for i, p in enumerate(pats) if all(e is A or e == x for e, x in zip(p, v))]
+        win = [i for i in app if all(j == i or wild[i] < wild[j] for j in app)]
+        want = ("ret", [win[0]]) if len(win) == 1 else ("ret", [99]) if not app else ("ambiguous", [])
+        del log[:]
+        try:
+            ov(v)
+            got = ("ret", list(log))
+        except Exception as e:  # noqa
+            got = (core.classify_exception(e, log), list(log))
+        if acc is not None:
+            acc.count("evaluations")
+            if len(app) >= 2:
+                acc.count("nontrivial")
+        if got != want:
+            found.append((f"wildcards:{want[0]}->{got[0]}", {"patterns": names, "value": list(v), "expected": list(want), "got": list(got)}))
+    if acc is not None:
+        for disc, detail in found:
+            acc.violation({"wildcards": names, "value": detail.get("value")}, disc, detail)
+    return found
+
+
 def strategies(acc):
     for k, v in list(linecache.cache.items()):
         if k.startswith("<ovld:") and v[2] and "__DEPENDENT_DISPATCH__" in v[2][0]:
@@ -298,10 +368,18 @@ def shard(shard, nshards, tier, seed):
             gen.purge_globals()
     strategies(acc)
     gen.purge_globals()
+    for idx, pats in enumerate(wildcard_cases(tier)):
+        if idx % nshards == shard:
+            run_wildcards(pats, acc)
     return acc
 
 
 def replay(case):
+    if "wildcards" in case:
+        import typing
+
+        pats = [tuple(typing.Any if e == "Any" else e for e in p) for p in case["wildcards"]]
+        return [f for f in run_wildcards(pats, None) if f[1].get("value") == case.get("value")]
     c = case["call"]
     vn = tuple(c) if isinstance(c, list) else c
     return check_program(case["space"], case["methods"], [vn], None, only=vn)
@@ -319,7 +397,7 @@ def main(tier):
              "/ class, a ParametrizedDependentType subclass, Dependent[bound, existing type] (a fresh type per use / ONE shared type re-bound everywhere) (spaces i1, ii, iv, v, ix, x; thorough also i, iii); integer domain {0,1,2} with ALL 8 predicates, bounds int / object; class bounds K0 / K1 with attribute predicates; "
              "<= 2 (thorough 3) dependent methods + <= 1 static method on the bound, a subclass or an unrelated class; priorities; "
              "one position, two positions, keyword-only dependent parameter, a union of two dependent types with different bounds; "
-             "a union whose dependent member has a strictly narrower bound than another member; intersections with dependent members; combinations of combinations (dependent members two levels down, plain class & dependent type of wider bound inside a union); 4-5 single-valued Literal methods of which every proper subset carries a second dependent condition on the other position; "
+             "parametrised @dependent_check types with typing.Any wildcards (all pairs, thorough triples, of the 8 patterns over three parameters x all 8 value tuples: comparable wildcard sets are ordered, incomparable ones tie); a union whose dependent member has a strictly narrower bound than another member; intersections with dependent members; combinations of combinations (dependent members two levels down, plain class & dependent type of wider bound inside a union); 4-5 single-valued Literal methods of which every proper subset carries a second dependent condition on the other position; "
              "every value of the corpus; oracle R1-R3 with the dependent clauses + every value a predicate is asked about must be an "
              "instance of its bound; non-trivial = calls with >= 2 applicable methods",
         assumptions=["reference semantics of vt/annot.py (dependent < static types comparable with its bound; equal bounds unordered; "
